@@ -21,6 +21,7 @@ InitK ==
     scroll |-> <<>>, hscroll |-> <<>>, lpk |-> 0,
     um |-> <<>>, us |-> <<>>, umm |-> 0,      \* unmodded_keys, unshifted_keys, unmodded_mods (bits)
     ovrem |-> FALSE,        \* override_states.removed_oscs() is non-empty (left by the last override_keys call)
+    cw |-> <<>>,            \* caps_word: <<>> or <<[cap, nt, T, ticks]>> (CapsWordState)
     sq |-> InitSq,          \* defseq sequence mode (SeqMode.tla); only touched when "seqtrie" \in DOMAIN Opts
     dyn |-> DmInit ]        \* dynamic macros (DynMacro.tla): record / replay state, stored macros
 
@@ -105,9 +106,13 @@ CustomPress(K, c) ==
     [] c.c = "unicode" -> [K EXCEPT !.out = Append(@, Ev("U", c.ch))]
     [] c.c = "mousetap" -> [K EXCEPT !.out = @ \o <<Ev("bd", c.btn), Ev("bu", c.btn)>>]
     [] c.c = "lrld" -> [K EXCEPT !.lrr = TRUE]
+    \* src: mod.rs CustomAction::CapsWord arm: Overwrite starts afresh, Toggle ends an active caps-word
+    [] c.c = "capsword" ->
+         LET fresh == <<[cap |-> c.cap, nt |-> c.nonterm, T |-> c.timeout, ticks |-> c.timeout]>> IN
+         [K EXCEPT !.cw = IF c.toggle /\ K.cw # <<>> THEN <<>> ELSE fresh]
     [] c.c = "cancel_macro_press" -> [K EXCEPT !.mcd = c.d]
     \* src: mod.rs CustomAction::Repeat arm (`rpt`): release, press, release of last_pressed_key
-    \* (KeyCode::No = code 240 before any key was pressed); caps-word is not modelled
+    \* (KeyCode::No = code 240 before any key was pressed)
     [] c.c = "repeat" ->
          LET k == IF K.lpk = 0 THEN 240 ELSE K.lpk IN
          [K EXCEPT !.out = @ \o ReleaseKeyOut(k) \o PressKeyOut(k) \o ReleaseKeyOut(k)]
@@ -170,13 +175,26 @@ ApplyOverrides(L, cur) ==
                   ELSE st1
        IN [L |-> [L EXCEPT !.states = st2], cur |-> o.keys, rem |-> o.st.rem # <<>>]
 
+\* src: caps_word.rs maybe_add_lsft (called from handle_keystate_changes after the overrides): the state ends when its
+\* ticks ran out or a key outside both lists is active; lsft is put in front when the LAST active key is one to
+\* capitalise; any active key refreshes the timeout
+CwStep(cw, cur) ==
+  IF cw = <<>> THEN [cw |-> cw, cur |-> cur]
+  ELSE LET s == cw[1] IN
+       IF s.ticks = 0 THEN [cw |-> <<>>, cur |-> cur]
+       ELSE IF \E i \in DOMAIN cur : ~Contains(s.cap, cur[i]) /\ ~Contains(s.nt, cur[i]) THEN [cw |-> <<>>, cur |-> cur]
+       ELSE LET cur1 == IF cur # <<>> /\ Contains(s.cap, cur[Len(cur)]) THEN <<42>> \o cur ELSE cur
+                t1 == IF cur1 # <<>> THEN s.T ELSE s.ticks
+            IN [cw |-> <<[s EXCEPT !.ticks = SatSub(t1, 1)]>>, cur |-> cur1]
+
 HandleKeystateChanges(K) ==
   LET r == TickL(K.L)
       ce == r.ce
       \* src: mod.rs:1050-1107 unmod / unshift edit cur_keys before the overrides (KeyRepeat.tla KrUnmodStep)
       un == KrUnmodStep(K.um, K.us, K.umm, ce.k, IF ce.k = "none" THEN <<>> ELSE CuList(ce), Keycodes(r.L))
       ov == ApplyOverrides(r.L, un.cur)
-      cur == ov.cur
+      cws == CwStep(K.cw, ov.cur)
+      cur == cws.cur
       prevOrder == IF RevRelease(ce) THEN Reverse(K.prev) ELSE K.prev
       rel == ReleasesOut(prevOrder, cur)
       pr == PressesOut(cur, K.prev, <<>>, K.lpk)
@@ -187,7 +205,7 @@ HandleKeystateChanges(K) ==
       pl == IF SqOn THEN SqPressLoop(cur, cur, sqr.sq, sqr.L, sqr.out, K.prev, K.lpk)
             ELSE [sq |-> K.sq, L |-> ov.L, out |-> rel \o pr.out, lpk |-> pr.lpk]
       K1 == [K EXCEPT !.L = pl.L, !.out = pl.out, !.lpk = pl.lpk, !.sq = pl.sq,
-                      !.um = un.um, !.us = un.us, !.umm = un.umm]
+                      !.um = un.um, !.us = un.us, !.umm = un.umm, !.cw = cws.cw]
       K2 == CASE ce.k = "press" -> CustomPressAll(K1, CuList(ce), "")
               [] ce.k = "release" -> CustomReleaseAll(K1, CuList(ce), "")
               [] OTHER -> K1
@@ -255,6 +273,7 @@ IsIdle(K) ==
      \* Bug = "idle_ignores_roa_removed" = the behaviour before the fix
      /\ (Bug \in {"idle_ignores_roa_removed", "idle_ignores_owed"} \/ ~(K.ovrem /\ Opts.override_release_on_activation))
      /\ K.vpr = <<>>
+     /\ (Bug = "idle_ignores_capsword" \/ K.cw = <<>>)      \* caps_word.is_none()
      /\ K.dyn.rep = <<>>                       \* dynamic_macro_replay_state.is_none()
      \* src: mod.rs is_idle (fix db302df): dynamic_macro_record_state.is_none(); Bug = "idle_ignores_rec"
      /\ (Bug = "idle_ignores_rec" \/ K.dyn.rec = <<>>)
@@ -334,7 +353,8 @@ Proj(K) ==
     osk |-> L.os.keys, osr |-> L.os.released, oso |-> L.os.other,
     ost |-> L.os.timeout, osrn |-> L.os.rnt, osp |-> L.os.pticks, osi |-> L.os.ignore,
     lpc |-> L.lpc, lpt |-> L.lpt, nseq |-> Len(L.seqs), naq |-> Len(L.aq), dl |-> L.dl,
-    prev |-> K.prev, tsi |-> K.tsi, nwfi |-> Cardinality(K.wfi), nvpr |-> Len(K.vpr) ]
+    prev |-> K.prev, tsi |-> K.tsi, nwfi |-> Cardinality(K.wfi), nvpr |-> Len(K.vpr),
+    cw |-> IF K.cw = <<>> THEN <<>> ELSE <<K.cw[1].ticks>> ]
   @@ DmProj(K.dyn)
   @@ (IF SqOn THEN [sq |-> SqProj(K.sq)] ELSE [zz \in {} |-> 0])
   @@ (IF HasChv2 THEN [cv2i |-> CvIsIdle(K.L.chv2), cv2a |-> CvAccepts(K.L.chv2)] ELSE [zz \in {} |-> 0])
